@@ -147,6 +147,8 @@ def gen_workload(tape):
     # then re-pointed with `fileset.path = template`
     w["path_setter"] = tape.choice(1 + len(DECOYS), "path_setter") \
         if tape.flag("via_path_setter", 1, 5) else 0
+    w["relative_cwd"] = tape.flag("relative_cwd", 1, 3)     # local backend only
+    w["junk"] = tape.choice(4, "junk") if tape.flag("junk_entries", 1, 4) else 0
     # two caller threads share the FileSet: consecutive queries run as two
     # simulated tasks with line pre-emption inside typhon.files.fileset
     w["two_callers"] = w["backend"] == "sim" and tape.flag("two_callers", 1, 6)
@@ -268,6 +270,12 @@ class Run:
         f["path"] = p
         self.be.add(p)
         self.files.append(f)
+        junk = self.w.get("junk", 0)
+        if junk and (len(self.files) + junk) % 3 == 0:
+            # left-overs next to a member: a backup copy, an interrupted
+            # download - names that only *begin* like a file of the set
+            self.be.add(p + [".bak", ".part", "~"][junk % 3])
+            self.probe("leftover_entries_next_to_members")
         c = self.cov(f)
         lim = F.dir_period(F.DIRS[self.t["dirs"]])
         if lim is not None and _dir_of(c[0], lim) != _dir_of(c[1], lim):
@@ -292,7 +300,16 @@ class Run:
         ex_periods = [tuple(p) for p in self.ex_periods()]
         if w["exclude_via"] == "ctor":
             kw["exclude"] = ex_names + ex_periods
-        decoy = DECOYS[w["path_setter"] - 1] if w.get("path_setter") else None
+        relative = w.get("relative_cwd") and w["backend"] == "local"
+        if relative:
+            # the template is given relative to the working directory, which
+            # the process changes afterwards (a FileSet keeps meaning the files
+            # it was created for)
+            os.chdir(os.path.dirname(self.be.root))
+            tmpl = os.path.relpath(tmpl)
+            self.probe("relative_template_then_chdir")
+        decoy = DECOYS[w["path_setter"] - 1] if w.get("path_setter") and not relative \
+            else None
         if decoy is not None:
             # the decoy carries the same user placeholders as the real template
             # (an assignment keeps the placeholders of the old path registered;
@@ -308,6 +325,8 @@ class Run:
             # nothing of the old template may survive the assignment
             self.fs.path = tmpl
             self.probe("fileset_repointed_by_path_assignment")
+        if relative:
+            os.chdir("/")
         if w["exclude_via"] == "methods":
             self.fs.exclude_files(ex_names)
             self.fs.exclude_times(ex_periods)
@@ -791,6 +810,7 @@ def run_one(tape, only=None):
             warnings.simplefilter("ignore")
             run.run()
     finally:
+        os.chdir("/")           # the working directory is process state, too
         shutil.rmtree(scratch, ignore_errors=True)
     seen, uniq = set(), []
     for v in run.V:
